@@ -1,5 +1,6 @@
 import Proofs.C02
 import Proofs.C03
 import Proofs.C09
+import Proofs.C12
 import Proofs.C13
 import Proofs.C20
